@@ -55,7 +55,7 @@ ROUTE = {
     "sesspap": "sess", "sesschap": "sess", "fzsess": "sess", "fzseq": "sess", "bkdhcp6": "sess", "bkrakick": "sess", "bkevd6": "sess", "bkevra": "sess", "bkevl2": "ipoe", "bkpadr": "sess",
     "bkl2gw": "ipoe",
     "attr80": "radius", "fzrad": "radius", "radreply": "radius", "radreqauth": "radius", "radma": "radius", "coaattrs": "radius", "radex": "radius", "radparse": "radius",
-    "ipoeopts": "ipoe", "l2ppp": "il2tp", "fzipoe": "ipoe", "l2dg": "il2tp",
+    "ipoeopts": "ipoe", "l2ppp": "il2tp", "fzipoe": "ipoe", "l2dg": "il2tp", "l2seq": "il2tp",
     "fzgopkt": "shm",
 }
 MODELLED = sorted(k for k in ROUTE if not k.startswith("fz") and not k.startswith("bk") and not (k.startswith("bld") and k not in ("papbld", "chapbld")) and k != "radex")
@@ -774,6 +774,55 @@ def gen_cases(rng, tier, budget):
            nv // 2, nm // 2, l2dg_emit, nsweep_quick=2)
     for s2 in short_strings("quick", False):
         l2dg_emit(s2)
+    # sequences against ONE LNS: tunnel bring-up, sessions, teardown, with hostile / out-of-role / malformed control messages
+    def l2msg(mt, tid=0, sid=0, extra=(), first=None):
+        return l2ctl([first if first is not None else l2avp(0, be16(mt))] + list(extra), tid=tid, sid=sid)
+    def l2hostile(ntun):
+        tid = rng.choice(list(range(0, ntun + 2)))
+        sid = rng.choice([0, 1, 2, 3])
+        k = rng.randrange(9)
+        if k == 0:
+            return l2msg(rng.choice([2, 11, 6, 5, 7, 9, 13, 15, 16, 0xffff]), tid, sid)           # wrong role / hello / unsupported
+        if k == 1:
+            return l2msg(10, tid, sid, [l2avp(14, rng.choice([b"", b"\x01", be16(7), b"\x00\x07\x09"]))])   # ICRQ, assigned id lengths
+        if k == 2:
+            return l2msg(rng.choice([3, 12, 14, 4]), tid, sid)                                     # SCCCN / ICCN / CDN / StopCCN out of order
+        if k == 3:
+            return l2ctl([], tid=tid, sid=sid)                                                     # ZLB
+        if k == 4:
+            return l2msg(1, 0, 0, [l2avp(7, rng.choice([AUTH, b"evil"])), l2avp(9, rng.choice([be16(rng.choice([4242, 7, 8])), b"\x01", b""]))])
+        if k == 5:
+            return mutate(rng, l2msg(rng.choice([1, 3, 10, 12]), tid, sid, [l2avp(7, AUTH), l2avp(9, be16(9)), l2avp(14, be16(3))]), [(2, 2), (12, 2)], [])
+        if k == 6:
+            return l2msg(3, tid, sid, first=l2avp(0, b"\x03"))                                    # message type AVP too short
+        if k == 7:
+            return l2data(tid, sid, be16(rng.choice([0xc021, 0xc023, 0xc223])) + ppp_frame(rng.choice([1, 9, 5]), 1, rb(rng, rng.randint(0, 8)))[0], rng.random() < 0.5)
+        return rb(rng, rng.choice([1, 6, 12, 20]))
+    for _ in range(60 * scale):
+        steps, ntun = [], 0
+        for _ in range(rng.randint(1, 3)):
+            steps += [l2hostile(ntun) for _ in range(rng.randint(0, 2))]
+            ptid = rng.choice([4242, 7, 8, 9])
+            steps.append(l2msg(1, 0, 0, [l2avp(7, AUTH), l2avp(9, be16(ptid))] + ([l2avp(10, be16(4))] if rng.random() < 0.5 else [])))
+            ntun += 1
+            t = rng.randint(1, ntun)
+            steps += [l2hostile(ntun) for _ in range(rng.randint(0, 2))]
+            if rng.random() < 0.85:
+                steps.append(l2msg(3, t))
+            for _ in range(rng.randint(0, 3)):
+                steps.append(l2msg(10, t, 0, [l2avp(14, be16(rng.randrange(1, 60000)))]))
+                steps += [l2hostile(ntun) for _ in range(rng.randint(0, 1))]
+                sidl = rng.choice([1, 1, 2, 3])
+                if rng.random() < 0.8:
+                    steps.append(l2msg(12, t, sidl))
+                    steps.append(l2data(t, sidl, be16(0xc021) + ppp_frame(1, 1, b"\x01\x04\x05\xd4")[0]))
+                if rng.random() < 0.4:
+                    steps.append(l2msg(14, t, sidl))
+            steps += [l2hostile(ntun) for _ in range(rng.randint(0, 2))]
+            if rng.random() < 0.4:
+                steps.append(l2msg(4, t))
+                steps.append(l2msg(1, 0, 0, [l2avp(7, AUTH), l2avp(9, be16(ptid))]))               # delayed duplicate SCCRQ after teardown
+        add(case("l2seq", [], AUTH, *steps))
     # --- DHCPv6 ----------------------------------------------------------------------------------------------------------
     for s in short_strings(tier, False):
         add(case("d6msg", [], s))
@@ -1172,6 +1221,27 @@ def distribution(cases, impl):
             else:
                 l2["rejected_or_ignored"] += 1
     d["_l2dg_outcomes"] = l2
+    sq = {"sequences": 0, "datagrams": 0, "max_tunnels": 0, "max_sessions_in_a_tunnel": 0, "tunnel_established": 0, "session_established": 0}
+    for c, o in zip(cases, impl):
+        if c.startswith("l2seq ") and o and o.startswith("ok"):
+            sq["sequences"] += 1
+            t = o.split()[1:]
+            i = 0
+            try:
+                while i < len(t) and t[i] == "255":
+                    sq["datagrams"] += 1
+                    nt = int(t[i + 1]); i += 2
+                    sq["max_tunnels"] = max(sq["max_tunnels"], nt)
+                    for _ in range(nt):
+                        state, ns = int(t[i + 2]), int(t[i + 3])
+                        sq["tunnel_established"] += state == 3
+                        sq["max_sessions_in_a_tunnel"] = max(sq["max_sessions_in_a_tunnel"], ns)
+                        for k in range(ns):
+                            sq["session_established"] += int(t[i + 4 + 3 * k + 2]) == 2
+                        i += 4 + 3 * ns
+            except (IndexError, ValueError):
+                pass
+    d["_l2seq"] = sq
     d["_modelled_entries"] = MODELLED
     d["_backlog_scenarios"] = SCENARIOS
     d["_builder_entries"] = BUILDERS
